@@ -462,3 +462,39 @@ package tacquito
 //@        (forall i int :: {p.Body[i]} 0 <= i && i < len(p.Body) ==> p.Body[i] == xor8(old(p.Body[i]), padAt(*p.Header, c.secret, i)))
 //@   ensures[C06] p != nil ==> p.Header.Version == old(p.Header.Version) && p.Header.Type == old(p.Header.Type) && p.Header.SeqNo == old(p.Header.SeqNo)
 //@        && p.Header.SessionID == old(p.Header.SessionID) && p.Header.Flags == old(p.Header.Flags) && len(p.Body) == old(len(p.Body))
+
+// ---------------------------------------------------------------------------
+// handlers.go
+// ---------------------------------------------------------------------------
+// ghost.replies counts calls of Reply / ReplyWithContext (the "attempts" of C07);
+// ghost.nwrites / ghost.written describe what reached the connection (spec/net.spec).
+
+//@ func (r *response) Reply(v EncoderDecoder) (n int, err error)
+//@   ghostinc replies
+//@   requires r != nil && r.crypter != nil && r.crypter.Conn != nil && r.loggerProvider != nil && v != nil
+//@   requires forall j int :: 0 <= j && j < len(r.writers) ==> r.writers[j] != nil
+//@   modifies r.header, ghost.nwrites, ghost.written, ghost.md5acc
+//@   ensures[C07] ghost.replies == old(ghost.replies) + 1
+//@   ensures[C06,C07] ghost.nwrites == old(ghost.nwrites) || ghost.nwrites == old(ghost.nwrites) + 1
+//@   ensures[C06,C07] err == nil ==> ghost.nwrites == old(ghost.nwrites) + 1
+//@   ensures[C06] let s = ((typeOf(v) == *AuthenReply && v.(*AuthenReply).Status == AuthenStatusRestart) ? 1 : old(r.header.SeqNo) + 1) in
+//@        (err == nil ==> (len(ghost.written) >= 12
+//@           && ghost.written[0] == old(r.header.Version.MajorVersion) * 16 + old(r.header.Version.MinorVersion)
+//@           && ghost.written[1] == old(r.header.Type) && ghost.written[2] == s && ghost.written[3] == old(r.header.Flags)
+//@           && u32at(ghost.written, 4) == old(r.header.SessionID) && u32at(ghost.written, 8) == len(ghost.written) - 12))
+//@   ensures[C06] let s = ((typeOf(v) == *AuthenReply && v.(*AuthenReply).Status == AuthenStatusRestart) ? 1 : old(r.header.SeqNo) + 1) in
+//@        (s > 255 ==> err != nil && ghost.nwrites == old(ghost.nwrites))
+//@   ensures[C06,C08] let s = ((typeOf(v) == *AuthenReply && v.(*AuthenReply).Status == AuthenStatusRestart) ? 1 : old(r.header.SeqNo) + 1) in
+//@        (err == nil ==> r.header.SeqNo == s && r.header.SessionID == old(r.header.SessionID) && r.header.Type == old(r.header.Type)
+//@            && r.header.Version == old(r.header.Version) && r.header.Flags == old(r.header.Flags))
+//@   loop 1 invariant -1 <= rangeindex && rangeindex < len(r.writers)
+
+//@ func (r *response) ReplyWithContext(ctx context.Context, v EncoderDecoder, writers ...Writer) (n int, err error)
+//@   requires r != nil && r.crypter != nil && r.crypter.Conn != nil && r.loggerProvider != nil && v != nil
+//@   requires forall j int :: 0 <= j && j < len(r.writers) ==> r.writers[j] != nil
+//@   modifies r.header, r.ctx, r.writers, ghost.nwrites, ghost.written, ghost.md5acc, ghost.replies
+//@   ensures[C07] ghost.replies == old(ghost.replies) + 1
+//@   ensures[C06,C07] ghost.nwrites == old(ghost.nwrites) || ghost.nwrites == old(ghost.nwrites) + 1
+//@   ensures[C06,C07] err == nil ==> ghost.nwrites == old(ghost.nwrites) + 1
+//@   loop 1 invariant -1 <= rangeindex && rangeindex < len(writers)
+//@   loop 1 invariant forall j int :: 0 <= j && j < len(r.writers) ==> r.writers[j] != nil
